@@ -845,6 +845,10 @@ func (r *Runner) cmd(ctx context.Context, cm syntax.Command) {
 			if as.Naked {
 				if valType == "-A" {
 					vr.Kind = expand.Associative
+				} else if valType == "-a" && vr.Kind == expand.Unknown {
+					// Remember that it is an array, so that a later
+					// "name+=value" appends to element zero.
+					vr.Kind = expand.Indexed
 				} else {
 					vr.Kind = expand.KeepValue
 				}
